@@ -144,7 +144,7 @@ AlaphAcc(S, c, i) ==
   IN IF final
      THEN IF q # 0 /\ JoinsNext(c.run[q])        THEN {"fina"}
           ELSE IF q # 0 /\ c.run[q].jg = "dr"    THEN {"fin3"}
-          ELSE IF q = 0 \/ IsU(c.run[q])         THEN {"isol", "fin2"}     \* Dev_LoneAlaph
+          ELSE IF q = 0 \/ IsU(c.run[q])         THEN {"isol", "fin2"}     \* = Dev_LoneAlaph
           ELSE {"fin2"}
      ELSE IF JoinedPrev(c, i) THEN {"med2"} ELSE {"isol"}
 
@@ -155,7 +155,10 @@ Acc(S, u, sc, c, i) ==
   ELSE IF IsAlaph(sc, c.run[i]) THEN AlaphAcc(S, c, i)
   ELSE {ArabForm(c, i)}
 
-UReadings == {"isol", "none"}
+\* the two named deviations (see the header)
+Dev_NonJoiningForm == {"isol", "none"}
+Dev_LoneAlaph      == {"isol", "fin2"}
+UReadings == Dev_NonJoiningForm
 \* the reading printed first: what the documents allsorts follows say (U -> isol; a lone
 \* ALAPH -> isol, or fin2 where a defect reading of the ALAPH rule is in force)
 Primary(S, u, sc, c, i) ==
@@ -169,7 +172,7 @@ LonePos(S, sc, c) == {i \in DOMAIN c.run : Cardinality(Acc(S, "isol", sc, c, i))
 AllFormsC(S, sc, c) ==
   LET lone == LonePos(S, sc, c)
   IN {[i \in DOMAIN c.run |-> IF i \in lone THEN ch[i] ELSE IF IsU(c.run[i]) THEN u ELSE f[i]] :
-         u \in UReadings, ch \in [lone -> {"isol", "fin2"}], f \in {FormsOfC(S, "isol", sc, c)}}
+         u \in UReadings, ch \in [lone -> Dev_LoneAlaph], f \in {FormsOfC(S, "isol", sc, c)}}
 AllForms(S, sc, run) == AllFormsC(S, sc, Ctx(run))
 
 ---------------------------------------------------------------------------
